@@ -94,7 +94,7 @@ def inode_text(draw, level, framers=(), frames=(), allow_implicit=True):
 @st.composite
 def direct_data(draw, values=None, single_ok=True, fields=None):
     """Text after with/per/cum (parseDirect): `value` or `field value [field value ...]`."""
-    vals = values if values is not None else st.sampled_from(["1", "2.5", "true", '"a b"', "'q'", "7", "-3"])
+    vals = values if values is not None else st.sampled_from(["1", "2.5", "true", '"a b"', "'q'", "7", "-3", '"run #7"', "'#'", '"a#"'])
     if single_ok and draw(st.integers(0, 3)) == 0:
         return draw(vals)
     n = draw(st.integers(1, 3))
